@@ -1,6 +1,39 @@
 """Property -> packs, bounded stand-ins, native replay harness, notes (read by pyvc.check)."""
 
 REGISTRY = {
+    "C02": dict(
+        packs=["mem"], level="proof",
+        replay=dict(script="replay/mem.py", args=["C02"], timeout=600),
+        bounded=[dict(name="memory-scenarios", script="replay/mem.py", args=["C02"],
+                      bound="call-form equivalence / redefinition / crash-state scenarios on a real cache directory (every truncation length of func_code.py, "
+                            "missing or torn metadata and output, leftover temporaries, with and without expires_after); extract_first_line on every prefix"), dict(name="filter_args-vs-interpreter", script="replay/c07.py", args=["4"],
+                          bound="every signature with <= 4 parameters x every call shape (31441 calls, 3591 accepted by Python)")],
+        trusted=["abstract store contracts (contracts/mem.py docstring)", "KEY = hash(filter_args(...)) identifies the bound arguments outside the ignore list (C07 oracle bounded; C08)",
+                 "the cached function is pure and get_func_code returns its current source"],
+        assumptions=["mmap_mode is None", "single process between two store calls (concurrency: C11)"],
+        undecided_clauses=["compression settings do not enter the logic under contract (they are passed through to numpy_pickle.dump, C03)"],
+    ),
+    "C06": dict(
+        packs=["mem"], level="proof",
+        replay=dict(script="replay/mem.py", args=["C06"], timeout=600),
+        bounded=[dict(name="memory-scenarios", script="replay/mem.py", args=["C06"],
+                      bound="call-form equivalence / redefinition / crash-state scenarios on a real cache directory (every truncation length of func_code.py, "
+                            "missing or torn metadata and output, leftover temporaries, with and without expires_after); extract_first_line on every prefix"), dict(name="filter_args-vs-interpreter", script="replay/c07.py", args=["4"],
+                          bound="every signature with <= 4 parameters x every call shape: acceptance and equal canonical form of equivalent calls")],
+        trusted=["abstract store contracts", "equal bound arguments give equal KEY (C07 bounded oracle, C08)"],
+        assumptions=["'every call that the plain function accepts is accepted by the wrapper' rests on the filter_args oracle (bounded, <= 4 parameters)"],
+        undecided_clauses=[],
+    ),
+    "C12": dict(
+        packs=["mem"], level="proof",
+        replay=dict(script="replay/mem.py", args=["C12"], timeout=600),
+        bounded=[dict(name="memory-scenarios", script="replay/mem.py", args=["C12"],
+                      bound="call-form equivalence / redefinition / crash-state scenarios on a real cache directory (every truncation length of func_code.py, "
+                            "missing or torn metadata and output, leftover temporaries, with and without expires_after); extract_first_line on every prefix")],
+        trusted=["abstract store contracts", "get_func_code returns the current source text; hash()/id() of live function objects are stable"],
+        assumptions=["a torn func_code.py never parses to exactly the current source"],
+        undecided_clauses=[],
+    ),
     "C20": dict(
         packs=["c20"],
         level="proof",
@@ -84,6 +117,27 @@ NOT_APPLICABLE = {
 }
 
 MANIFEST_TEXT = {
+    "C02": dict(
+        text="Contracts on the real MemorizedFunc methods against an abstract store with store invariant SI and table invariant TI: _cached_call / __call__ "
+             "return Eval(current source, KEY) on every path (hit, miss, failed load, invalidated entry, changed code), call_and_shelve returns a reference "
+             "to exactly this call whose stored value is that value, _call dumps once under exactly this call id and writes no other key, "
+             "_check_previous_func_code / clear / _write_func_code preserve SI and TI, MemorizedResult.get loads exactly its entry.",
+        note="Assumed: abstract store contracts, purity of the user function, KEY identifies bound arguments (filter_args: bounded interpreter oracle after a fix "
+             "commit; hashing: C08). Known findings K3 (crash inside clear) and K5 (two live definitions with one id) are reported on every run.",
+    ),
+    "C06": dict(
+        text="_cached_call: a valid entry under unchanged code is served with the execution counter unchanged (or exactly one recomputation when the load itself "
+             "fails); a miss executes exactly once; check_call_in_cache returns the same answer as the call path's own test and True implies a valid entry for "
+             "this key; _is_in_cache_and_valid leaves other entries untouched when the code is unchanged.",
+        note="Form-independence of the key rests on the bounded filter_args oracle and on C08. Same abstract store assumptions as C02.",
+    ),
+    "C12": dict(
+        text="_check_previous_func_code returns True only if the code on disk is the current source, detects every changed complete code file, wipes before "
+             "writing new code, keeps the cache of unchanged code (fresh process, empty table); func_code_info is refreshed when the code object is swapped; "
+             "SI and TI are preserved by every writer.",
+        note="Known findings: K5 (older still-referenced definition served the newer one's values: TI of OTHER functions is not preserved by _write_func_code) "
+             "and K3. get_func_code and hash()/id() are externals.",
+    ),
     "C20": dict(
         text="resource_tracker.main verified whole for an arbitrary (unbounded) request history: inductive loop invariant 'every stored count >= 1' "
              "plus a per-request transition clause proved for every line of arbitrary bytes - REGISTER increments and never deletes; MAYBE_UNLINK on a "
